@@ -69,6 +69,25 @@ def unesc_string(s):
 
 
 @prim
+def rv_starts(s):
+    """Start offsets of the tokens RE_VALUES.finditer(s) yields (values and separators of a value list)."""
+    from soupsieve import css_parser as cp
+    return [m.start(0) for m in cp.RE_VALUES.finditer(s)]
+
+
+@prim
+def rv_split(s, p):
+    from soupsieve import css_parser as cp
+    return cp.RE_VALUES.match(s, p).group('split')
+
+
+@prim
+def rv_value(s, p):
+    from soupsieve import css_parser as cp
+    return cp.RE_VALUES.match(s, p).group('value')
+
+
+@prim
 def ls_starts(s):
     """Start offsets of the matches RE_PATTERN_LINE_SPLIT.finditer(s) yields: the line breaks of s, then the end of s."""
     import soupsieve.util as su
